@@ -33,8 +33,8 @@ CHECKS = {
          "trusts the wire model's tokenizer (validated against the reference on every case)",
          "DESIGN.md §4 C08"),
  "C10": ("fault_enumeration",
-         "exhaustive enumeration of message sequences (length <=3 / <=4 over an 8-message alphabet) x reader schema x every cut point of the delimited stream, replayed on the real dump/load",
-         "Every sequence is written with dump(SIZE_DELIMITED), compared with the wire model's and the reference's length-prefixed framing, read by the reference, and read back with load(SIZE_DELIMITED) at every cut point 0..len: messages wholly before the cut must be returned intact with the stream positioned at their boundary, and a load that returns must return exactly the written message.",
+         "exhaustive enumeration of message sequences (length <=3 / <=4 over an 8-message alphabet) x reader schema x every cut point of the delimited stream x every schedule of <=2 short read() answers, replayed on the real dump/load",
+         "Every sequence is written with dump(SIZE_DELIMITED), compared with the wire model's and the reference's length-prefixed framing, read by the reference, and read back with load(SIZE_DELIMITED) at every cut point 0..len: messages wholly before the cut must be returned intact with the stream positioned at their boundary, and a load that returns must return exactly the written message. The uncut stream is also served by a reader that answers any <=2 of the multi-byte read calls short (1 byte / all but one byte): every message must still be read back.",
          "trusts google.protobuf.proto.serialize/parse_length_prefixed as the framing reference",
          "DESIGN.md §4 C10"),
  "C17": ("fault_enumeration",
